@@ -144,7 +144,19 @@ class C16(Prop):
                 for (lo, hi) in ((5, 30), (0, 0), (0, 3), (2.5, 2.5), (1, 1000)):
                     yield {"min_wait": lo, "max_wait": hi, "outcomes": list(seq), "us": [1 - 2 ** -53] * 5, "exit_at": None,
                            "poll": 5, "ping_rate": 30, "ping_timeout": None, "driver": "fake", "default_event": False}
-        return [Enumeration("all_outcome_sequences_len5_x3", seqs, exhaustive=True)]
+        def outages():
+            # "persist() never ends by itself": thousands of consecutive failed attempts (a long
+            # outage), also with a Ready somewhere in the middle
+            for n in (1100, 2500):
+                for (lo, hi) in ((5, 30), (0, 0.5), (1, 10 ** 6)):
+                    for ready_at in (None, n // 2):
+                        seq = ["connect_fail"] * n
+                        if ready_at is not None:
+                            seq[ready_at] = "drop_after_ready"
+                        yield {"min_wait": lo, "max_wait": hi, "outcomes": seq, "us": [0.75] * n, "exit_at": None,
+                               "poll": 5, "ping_rate": 30, "ping_timeout": None, "driver": "fake", "default_event": False}
+        return [Enumeration("all_outcome_sequences_len5_x3", seqs, exhaustive=True),
+                Enumeration("long_outages", outages, exhaustive=True)]
 
     def run_case(self, case):
         from lomond.persist import persist
